@@ -95,6 +95,23 @@ fn main() {
       println!("layouts {} loaded {} pair(2,3) {} with(1) {}", n, loaded_n, rel_b, rel_a);
       std::process::exit(0);
     }
+    "fuzz-only" => {
+      // development aid: the libFuzzer stage of a property alone (tmverif fuzz-only <ID> <runs>)
+      let runs: u64 = args[3].parse().unwrap_or(1_600_000);
+      let (target, max_len) = match n {
+        10 | 11 | 12 => ("fz_loop", 900),
+        14 => ("fz_loader", 1500),
+        _ => ("fz_mapper", 700),
+      };
+      let t0 = Instant::now();
+      let o = tmverif::fuzzstage::campaign(target, n, runs, seed, max_len, threads.min(8).max(1));
+      println!("{} in {:.0}s", o.to_json(), t0.elapsed().as_secs_f64());
+      if let Some((v, case)) = o.violation {
+        println!("[{}] {}: {}\ncase: {}", id, v.kind, v.detail, case);
+        std::process::exit(1);
+      }
+      std::process::exit(0);
+    }
     "trace" => {
       if let Err(v) = tmverif::props_mapper::trace(&args[3]) {
         eprintln!("trace failed: {}", v.detail);
